@@ -24,6 +24,8 @@ type Req struct {
 	Time     int  // logical time (number of actions executed) at which it was sent
 	AnsTime  int
 	Outcome  string
+	// Throttled: the request was made through a throttle (exact, from the call stack)
+	Throttled bool
 }
 
 // MQSub is a subscription of the gateway on a namespace ("event.<name>",
@@ -158,6 +160,9 @@ func (m *MQ) SendRequest(subject string, payload []byte, cb mq.Response) {
 		cb:       cb,
 		Time:     m.now(),
 		TooLong:  len(subject)+InboxLen > MaxControlLine,
+		// made by a callback of a throttle: called from Throttle.Add itself, or
+		// the task that Throttle.Done started for the next callback in line
+		Throttled: stackHas("rescache.(*Throttle).Add") || (inThrottleTask && stackHas("mc.(*Sched).RunTask")),
 	}
 	if len(r.Name) > 200 {
 		r.Name = fmt.Sprintf("%s…(%d)#%d", key[:80], len(key), n)
